@@ -45,7 +45,9 @@ __CPROVER_assigns(__verif_g)
 __CPROVER_ensures(fn_idx == __verif_gf ==> __verif_g.fnv == 1)
 __CPROVER_ensures(fn_idx != __verif_gf ==> __verif_g.fnv == __CPROVER_old(__verif_g.fnv))
 __CPROVER_ensures(__verif_g.verified_module == __CPROVER_old(__verif_g.verified_module))
-__CPROVER_ensures((__CPROVER_return_value.ok && __verif_g.hit) ==> INSTR_OK(mod, fn_idx, __verif_gpos))
+/* __verif_g.iok is assigned by an inserted ghost statement just before `return ok_result()`:
+ *   iok = !hit || INSTR_OK over the function's own locals code (= mod->code + code_offset) and code_end (= code_length) */
+__CPROVER_ensures(__CPROVER_return_value.ok ==> __verif_g.iok)
 /* the walk covers the function exactly: it ends at code_length, never beyond */
 __CPROVER_ensures(__CPROVER_return_value.ok ==> __verif_g.walk_end == mod->functions[fn_idx].code_length);
 
